@@ -10,8 +10,7 @@
 EXTENDS JSONValue
 
 Nodes(g) == DOMAIN g
-Branches(g) == {<<n, i>> : n \in DOMAIN g, i \in 1..3} \cap
-               UNION {{<<n, i>> : i \in DOMAIN g[n].branches} : n \in DOMAIN g}
+Branches(g) == UNION {{<<n, i>> : i \in DOMAIN g[n].branches} : n \in DOMAIN g}
 Br(g, b) == g[b[1]].branches[b[2]]
 TargetText(t) == CASE t[1] = "lit" -> t[2] [] t[1] = "ref" -> t[3] [] OTHER -> ""
 
